@@ -64,6 +64,10 @@ type vfCase30 struct {
 	// Rounds > 1: run the same scripts that many times (fresh database each) and fail on the
 	// first failing round.  Used by committed replays, whose outcome depends on the schedule.
 	Rounds int `json:",omitempty"`
+	// Tomb: before the concurrent phase every counter and every NX key is written and deleted
+	// again, so the keys are absent because of a tombstone, not because they never existed
+	// (Initial must be ""); the expected results are the same as for fresh keys.
+	Tomb bool `json:",omitempty"`
 }
 
 // effect is the change a successful op applies to the counter.
@@ -222,6 +226,31 @@ func vfRun30Once(c vfCase30, r *pbt.Rec) error {
 				return pbt.Failf("setup", "SET %s %s before the concurrent phase: %q %v", vfCtrName(k), c.Initial, line, err)
 			}
 		}
+	}
+
+	if c.Tomb && c.Initial == "" {
+		var names []string
+		for _, k := range ctrList {
+			names = append(names, vfCtrName(k))
+		}
+		seenNX := map[int]bool{}
+		for _, ops := range c.Conns {
+			for _, o := range ops {
+				if o.Kind == "SETNX" && !seenNX[o.Key] {
+					seenNX[o.Key] = true
+					names = append(names, fmt.Sprintf("nx%d", o.Key))
+				}
+			}
+		}
+		for _, n := range names {
+			if line, _, err := vfRoundTrip(setup, srd, [][]byte{[]byte("SET"), []byte(n), []byte("7")}); err != nil || line != "+OK" {
+				return pbt.Failf("setup", "SET %s 7 before the concurrent phase: %q %v", n, line, err)
+			}
+			if line, _, err := vfRoundTrip(setup, srd, [][]byte{[]byte("DEL"), []byte(n)}); err != nil || line != ":1" {
+				return pbt.Failf("setup", "DEL %s before the concurrent phase: %q %v", n, line, err)
+			}
+		}
+		r.Label("setup:keys-deleted-before")
 	}
 
 	// concurrent phase
@@ -429,6 +458,9 @@ func vfGen30For(backend string) func(t *rapid.T) vfCase30 {
 		perConn := rapid.IntRange(8, 24).Draw(t, "ops-per-conn")
 		// 1-3 counters shared by all connections: conflict history of one key must survive commits on the others
 		nctr := rapid.SampledFrom([]int{1, 1, 2, 3}).Draw(t, "counters")
+		if c.Initial == "" {
+			c.Tomb = rapid.Bool().Draw(t, "tomb")
+		}
 		for i := 0; i < nc; i++ {
 			var ops []vfOp
 			for j := 0; j < perConn; j++ {
@@ -549,7 +581,7 @@ func vfRun30Counted(c vfCase30, r *pbt.Rec) error {
 
 func TestCheck(t *testing.T) {
 	s := &pbt.Suite{ID: "C30", Level: "exploration",
-		Rule: "4-8 real connections to the real gateway, each running its own script (8-24 commands) of INCR / DECR / INCRBY d / DECRBY d on 1-3 counters shared by all connections and SET nx<i> v NX on 1-4 shared fresh keys, " +
+		Rule: "4-8 real connections to the real gateway, each running its own script (8-24 commands) of INCR / DECR / INCRBY d / DECRBY d on 1-3 counters shared by all connections and SET nx<i> v NX on 1-4 shared keys that are absent (never written, or written and deleted before the concurrent phase), " +
 			"free-running in parallel goroutines (the schedule is the machine's, not the generator's). Backends: embedded (database opened as main() opens it) and raft (real raftBackend over the real raftstore/kv applier on a Percolator database, real PD TSO allocator, one region). " +
 			"Oracle: final GET counter = initial + sum of deltas of the INCR-family commands that replied with an integer; per NX key at most one +OK. " +
 			"Non-trivial = run in which two successful INCR-family commands of different connections overlapped in time (harness timestamps around request/reply).",
